@@ -43,7 +43,8 @@ def fingerprint_hostname(hostname, strip_suffix=False):
         # TODO: this is not performant because the code path reparses again
         r = split_suffix(hostname)
 
-        if r is not None:
+        # NOTE: a hostname that is a bare suffix is kept as is
+        if r is not None and r[0]:
             hostname, _ = r
 
     return hostname
@@ -92,7 +93,9 @@ def fingerprint_url(url, unsplit=True, strip_suffix=False, platform_aware=False)
             # TODO: this is not performant because the code path reparses again
             r = split_suffix(hostname)
 
-            if r is not None:
+            # NOTE: a hostname that is a bare suffix is kept as is, else
+            # nothing would be left of it
+            if r is not None and r[0]:
                 hostname, _ = r
 
     # Dropping port
